@@ -106,6 +106,7 @@ class GenProxy:
         sub = Interp(self.interp.ctx, stubs=self.interp.stubs, max_steps=self.interp.max_steps, classes=self.interp.classes)
         sub.steps = self.interp.steps
         sub.set_order = self.interp.set_order
+        sub.copy_records = getattr(self.interp, "copy_records", False)
         if hasattr(self.interp, 'superclasses'):
             sub.superclasses = self.interp.superclasses
 
@@ -751,7 +752,17 @@ class Interp:
             if name in ('copy.deepcopy', 'copy.copy', 'deepcopy'):
                 import copy
                 if any(isinstance(a, Obj) for a in args):
-                    raise Unsupported('copy of a modelled object')
+                    # a modelled object is a plain record: copying it field by field is what Python does for an instance of a
+                    # class WITHOUT copy hooks.  If any class of the analysed tree defines one, the evaluator does not know.
+                    if not getattr(self, 'copy_records', False):
+                        raise Unsupported('copy of a modelled object')
+                    hooks = ('__deepcopy__', '__copy__', '__reduce__', '__reduce_ex__', '__getstate__', '__setstate__')
+                    for c0 in self.ctx.prog.classes.values():
+                        if any(h in c0.methods for h in hooks) and not c0.module.name.startswith('template:'):
+                            raise Unsupported('copy of a modelled object while class {} defines a copy hook'.format(c0.name))
+                    if short == 'copy' or name == 'copy.copy':
+                        o0 = args[0]
+                        return Obj(o0._cls, **dict(o0._f))
                 return copy.deepcopy(args[0])
             if short == 'set_element' and len(args) == 1:
                 return sorted(args[0], key=repr)[0] if args[0] else self._raise('StopIteration')
